@@ -117,9 +117,9 @@ var registry = []Harness{
 		Quick: [][]int{{6}, {7}}, Thorough: [][]int{{6}, {7}, {8}, {9}, {16}},
 		Bound: "A record data = every string of the length given by the param (all bytes symbolic, dots anywhere)"},
 	{Prop: "C18", Unwind: 300, Pkg: "nns", Func: "VerifC18IPv6Shape", Link: []string{"nns"},
-		Quick:    [][]int{{1, 4, 3, 9, 1, 0}, {1, 4, 4, 9, 1, 0}, {1, 4, 9, 1, 0}, {1, 4, 9, 0}, {0, 9, 1, 0}, {1, 4, 1, 1, 1, 1, 1, 1, 1, 0}, {1, 4, 4, 4, 4, 4, 4, 4, 4, 0}, {0, 4, 1, 1, 0}, {0, 4, 5, 9, 1, 0}, {1, 4, 2, 9, 2, 1, 0}, {1, 4, 1, 1, 1, 1, 1, 1, 9, 0}, {1, 4, 9, 3, 1, 1, 1, 1, 1, 0}, {0, 9, 4, 1, 1, 1, 1, 1, 1, 0}, {1, 4, 4, 9, 1, 1, 1, 1, 1, 0}},
-		Thorough: [][]int{{1, 4, 9, 3, 1, 1, 1, 1, 1, 0}, {0, 9, 4, 1, 1, 1, 1, 1, 1, 0}, {1, 4, 4, 9, 1, 1, 1, 1, 1, 0}, {1, 4, 1, 1, 9, 1, 1, 1, 1, 0}, {1, 4, 1, 1, 1, 9, 1, 1, 1, 0}, {1, 4, 1, 1, 1, 1, 9, 1, 1, 0}, {1, 4, 1, 1, 1, 1, 1, 9, 1, 0}, {1, 4, 9, 4, 4, 0}, {1, 4, 9, 4, 4, 4, 0}, {1, 4, 3, 9, 1, 0}, {1, 4, 4, 9, 1, 0}, {1, 4, 9, 1, 0}, {1, 4, 9, 0}, {0, 9, 1, 0}, {1, 4, 1, 1, 1, 1, 1, 1, 1, 0}, {1, 4, 4, 4, 4, 4, 4, 4, 4, 0}, {0, 4, 1, 1, 0}, {0, 4, 5, 9, 1, 0}, {1, 4, 2, 9, 2, 1, 0}, {1, 4, 1, 9, 0}, {1, 4, 2, 9, 0}, {1, 4, 3, 9, 0}, {1, 4, 4, 9, 0}, {0, 3, 4, 9, 1, 0}, {1, 4, 1, 1, 1, 1, 1, 1, 9, 0}, {0, 4, 1, 1, 1, 1, 1, 1, 1, 1}, {0, 4, 1, 1, 1, 1, 1, 1, 9, 1}, {0, 4, 9, 1, 9, 1, 0}, {1, 4, 3, 3, 9, 4, 0}},
-		Bound:    "AAAA record data = colon-free groups of the lengths given by the params (9 = the '::' gap), every byte fully symbolic; the gap standing for exactly one zero group is tried in positions 0, 1, 2 and 7 (thorough: all eight), so that a group written after the gap lands in each of the eight words"},
+		Quick:    [][]int{{1, 4, 3, 9, 1, 0}, {1, 4, 4, 9, 1, 0}, {1, 4, 9, 1, 0}, {1, 4, 9, 0}, {0, 9, 1, 0}, {1, 4, 1, 1, 1, 1, 1, 1, 1, 0}, {1, 4, 4, 4, 4, 4, 4, 4, 4, 0}, {0, 4, 1, 1, 0}, {0, 4, 5, 9, 1, 0}, {1, 4, 2, 9, 2, 1, 0}, {1, 4, 1, 1, 1, 1, 1, 1, 9, 0}, {1, 4, 9, 3, 1, 1, 1, 1, 1, 0}, {0, 9, 4, 1, 1, 1, 1, 1, 1, 0}, {1, 4, 4, 9, 1, 1, 1, 1, 1, 0}, {0, 4, 1, 1, 1, 1, 1, 1, 1, 8}, {0, 8, 4, 1, 1, 1, 1, 1, 1, 1}, {0, 4, 9, 1, 1, 1, 1, 1, 1, 8}, {0, 4, 1, 1, 1, 1, 1, 9, 1, 8}, {0, 4, 1, 8, 0}, {0, 8, 4, 9, 1, 0}, {0, 4, 1, 1, 1, 1, 1, 1, 1, 1}},
+		Thorough: [][]int{{0, 4, 1, 1, 1, 1, 1, 1, 1, 8}, {0, 8, 4, 1, 1, 1, 1, 1, 1, 1}, {0, 4, 9, 1, 1, 1, 1, 1, 1, 8}, {0, 4, 1, 1, 1, 1, 1, 9, 1, 8}, {0, 4, 1, 8, 0}, {0, 8, 4, 9, 1, 0}, {0, 4, 1, 1, 1, 1, 1, 1, 1, 1}, {0, 4, 1, 1, 1, 1, 1, 9, 8, 0}, {0, 8, 9, 1, 0}, {1, 4, 9, 3, 1, 1, 1, 1, 1, 0}, {0, 9, 4, 1, 1, 1, 1, 1, 1, 0}, {1, 4, 4, 9, 1, 1, 1, 1, 1, 0}, {1, 4, 1, 1, 9, 1, 1, 1, 1, 0}, {1, 4, 1, 1, 1, 9, 1, 1, 1, 0}, {1, 4, 1, 1, 1, 1, 9, 1, 1, 0}, {1, 4, 1, 1, 1, 1, 1, 9, 1, 0}, {1, 4, 9, 4, 4, 0}, {1, 4, 9, 4, 4, 4, 0}, {1, 4, 3, 9, 1, 0}, {1, 4, 4, 9, 1, 0}, {1, 4, 9, 1, 0}, {1, 4, 9, 0}, {0, 9, 1, 0}, {1, 4, 1, 1, 1, 1, 1, 1, 1, 0}, {1, 4, 4, 4, 4, 4, 4, 4, 4, 0}, {0, 4, 1, 1, 0}, {0, 4, 5, 9, 1, 0}, {1, 4, 2, 9, 2, 1, 0}, {1, 4, 1, 9, 0}, {1, 4, 2, 9, 0}, {1, 4, 3, 9, 0}, {1, 4, 4, 9, 0}, {0, 3, 4, 9, 1, 0}, {1, 4, 1, 1, 1, 1, 1, 1, 9, 0}, {0, 4, 1, 1, 1, 1, 1, 1, 1, 1}, {0, 4, 1, 1, 1, 1, 1, 1, 9, 1}, {0, 4, 9, 1, 9, 1, 0}, {1, 4, 3, 3, 9, 4, 0}},
+		Bound:    "AAAA record data = colon-free groups of the lengths given by the params (9 = the '::' gap, 8 = a lone leading or trailing colon: eight groups and a colon, a gap and a trailing colon at nine fragments, nine groups), every byte fully symbolic; the gap standing for exactly one zero group is tried in positions 0, 1, 2 and 7 (thorough: all eight), so that a group written after the gap lands in each of the eight words"},
 	{Prop: "C18", Unwind: 300, Pkg: "nns", Func: "VerifC18IPv6Free", Link: []string{"nns"},
 		Quick: [][]int{{1}, {5}, {6}}, Thorough: [][]int{{1}, {2}, {5}, {6}, {7}, {8}, {40}},
 		Bound: "AAAA record data = every string of the length given by the param (all bytes symbolic)"},
